@@ -118,6 +118,21 @@ def ownership(repo, res):
 
     for key, ok, where, msg, exp, found in memo_rules.unit_cache_writers(repo):
         res.check(ok, key, where, msg, exp, found, rid=r1)
+    # a pickle carries the registry's whole table: a table filtered against the default registry would make the
+    # restored registry resolve names from whatever the default registry holds in the loading process
+    rd = repo.mod(ARR).func("unyt_array.__reduce__")
+    res.fn(rd)
+    pairs = [t for t in ast.walk(rd.node) if isinstance(t, ast.Tuple) and len(t.elts) == 2 and norm(t.elts[0]) in ("str(self.units)", "self.units.__str__()")]
+    if len(pairs) != 1:
+        raise AnalysisError(f"{rd.where()}: the pickled (unit text, table) pair was not found")
+    tab = pairs[0].elts[1]
+    shown = norm(tab)
+    if isinstance(tab, ast.Name):
+        ds = [n.value for n in walk_no_nested(rd.node) if isinstance(n, ast.Assign) and norm(n.targets[0]) == tab.id]
+        tab = ds[0] if len(ds) == 1 else None
+        shown = f"{shown} = {norm(tab) if tab is not None else '?'}"
+    whole = ("self.units.registry.lut", "dict(self.units.registry.lut)", "self.units.registry.lut.copy()")
+    res.check(tab is not None and norm(tab) in whole, "pickle:complete-table", rd.where(), "the pickled table is not the registry's complete table: names left out are refilled from the default registry of the loading process, so what the restored registry resolves depends on another registry's contents (a modified built-in symbol is reset, a symbol also defined in the default registry is dropped)", "self.units.registry.lut", shown, rid=r1)
     dc = reg.func("UnitRegistry.__deepcopy__")
     res.fn(dc)
     lutdef = [norm(n.value) for n in walk_no_nested(dc.node) if isinstance(n, ast.Assign) and norm(n.targets[0]) == "lut"]
